@@ -163,9 +163,7 @@ func (i *interpreter) ensureInit(pkg *ssa.Package) {
 	if initFn == nil {
 		return
 	}
-	if initFn.Blocks == nil {
-		pkg.Build()
-	}
+	pkg.Build()
 	i.initDepth++
 	defer func() {
 		i.initDepth--
@@ -544,15 +542,17 @@ func (i *interpreter) callSSA(caller *frame, callpos token.Pos, fn *ssa.Function
 			return i.zero(fn.Signature.Results())
 		}
 	}
+	// Packages of dependencies are built on first use. Build is a sync.Once: always go through it before looking at
+	// fn.Blocks, so that a worker never interprets a function another worker is still building.
+	if fn.Pkg != nil {
+		fn.Pkg.Build()
+	} else if o := fn.Origin(); o != nil && o.Pkg != nil {
+		o.Pkg.Build()
+	} else if p := fn.Parent(); p != nil && p.Pkg != nil {
+		p.Pkg.Build()
+	}
 	if fn.Blocks == nil {
-		if fn.Pkg != nil {
-			fn.Pkg.Build()
-		} else if o := fn.Origin(); o != nil && o.Pkg != nil {
-			o.Pkg.Build()
-		}
-		if fn.Blocks == nil {
-			i.unsupported("no code for function: %s", name)
-		}
+		i.unsupported("no code for function: %s", name)
 	}
 	if fn.TypeParams().Len() > 0 && len(fn.TypeArgs()) == 0 {
 		i.unsupported("generic function body not instantiated: %s", name)
